@@ -1590,3 +1590,62 @@ pub fn wake_crossover(s: &mut Src) -> Program {
     }
     Program { threads: vec![main, child], rx_owner: wt, arc_owner: vec![] }
 }
+
+/// Two signals (unpark / notify) reach the same waiter before it consumes one: they coalesce into
+/// one stored notification, which must still carry what *both* signallers did before. Each
+/// signaller writes a relaxed probe before its signal; the waiter reads the probes after waking up.
+pub fn double_signal(s: &mut Src) -> Program {
+    let kind = s.pick(2);
+    let two = s.chance(1, 2);
+    let waiter_is_main = s.chance(1, 2);
+    let nsig = if two { 2 } else { 1 };
+    let wt: u8 = if waiter_is_main { 0 } else { (nsig + 1) as u8 };
+    let sig = |_s: &mut Src| -> Op {
+        if kind == 0 {
+            Op::Unpark { t: wt }
+        } else {
+            Op::NfNotify { n: 0 }
+        }
+    };
+    let wait = if kind == 0 { Op::Park } else { Op::NfWait { n: 0 } };
+    let mut threads: Vec<Vec<Op>> = vec![vec![]];
+    if two {
+        threads.push(vec![Op::Store { a: 0, v: 1, o: MO::Rlx }, sig(s)]);
+        threads.push(vec![Op::Store { a: 1, v: 1, o: MO::Rlx }, sig(s)]);
+    } else {
+        let mut t = vec![];
+        if s.chance(1, 2) {
+            t.push(Op::Store { a: 0, v: 1, o: MO::Rlx });
+        }
+        t.push(sig(s));
+        t.push(Op::Store { a: 1, v: 1, o: MO::Rlx });
+        if s.chance(1, 3) {
+            t.extend([Op::Lock { m: 0 }, sig(s), Op::Unlock { m: 0 }]);
+        } else {
+            t.push(sig(s));
+        }
+        threads.push(t);
+    }
+    let mut waiter = vec![];
+    if s.chance(1, 3) {
+        // look first: how many signals have been issued is not observable, but a probe read before
+        // the wait pins part of the order
+        waiter.push(Op::Load { a: 1, o: MO::Rlx });
+    }
+    waiter.push(wait);
+    waiter.push(Op::Load { a: 0, o: MO::Rlx });
+    waiter.push(Op::Load { a: 1, o: MO::Rlx });
+    if !waiter_is_main {
+        threads.push(waiter.clone());
+    }
+    let n = threads.len();
+    let mut main: Vec<Op> = (1..n).map(|t| Op::Spawn { t: t as u8 }).collect();
+    if waiter_is_main {
+        main.extend(waiter);
+    }
+    for t in 1..n {
+        main.push(Op::Join { t: t as u8 });
+    }
+    threads[0] = main;
+    Program { threads, rx_owner: 0, arc_owner: vec![] }
+}
